@@ -241,7 +241,7 @@ def deep_cases():
                 ps["K"] = K
             for tail in ([["deepen"]], [["expand", 3], ["deepen"], ["expand", 1]], [["deepen"], ["deepen"]]):
                 out.append({"partition": ps, "domain": [[0.0, 1.0]] if cls != "DimensionBinaryPartition" else [[0.0, 1.0], [2.0, 3.0]],
-                            "rng": {"mode": "seed", "seed": m}, "ops": [["chain", m]] + tail})
+                            "rng": {"mode": "seed", "seed": m}, "ops": [["chain", 10]] * (m // 10) + [["chain", m % 10]] + tail})
     return out
 
 
